@@ -617,6 +617,14 @@ def handleNp (j : Json) : D Json := do
         pure (Json.arr (((Np.npWhere (Np.npLeS ((← a).map (·.d)) (← r))).map (· + 1)).map toJson).toArray)
     | "set_idx" => do
         pure (flagsToJson (Np.setIdx (← field j "flags" >>= asFlagList) (← field j "idx" >>= asList asNat) .suspect))
+    | "rolling" => do
+        let w ← field j "w" >>= asNat
+        let win := Np.rollingWindow (← a) w
+        let mn := Np.rowMin win
+        let mx := Np.rowMax win
+        let tr := Np.insertFalse (min (← a).length w) (Np.filledFalse (Np.ltS (Np.uf1 Np.Fl.abs (Np.maBin Np.Fl.sub mx mn)) (← r)))
+        let hide := fun (c : Np.Cell) => if c.m then (⟨.nan, true⟩ : Np.Cell) else c
+        pure (Json.arr #[cellsToJson (mn.map hide), cellsToJson (mx.map hide), Json.arr (tr.map toJson).toArray])
     | "great_circle" => do
         pure (cellsToJson (Np.greatCircle (← field j "hops" >>= asList asV) (← field j "n" >>= asNat)))
     | s => throw s!"unknown np op {s}")
